@@ -114,9 +114,15 @@ ConsumeOutcome == /\ OutcomeOnly /\ l <= NE
                         /\ e.val # -2 /\ ~e.bad_nonce /\ e.leaked = 0
                   /\ l' = l + 1 /\ UNCHANGED <<vars, ahead>>
 
+\* Executions recorded from the repository's own tests (header.env_unlogged): the test cancels its context itself, nothing
+\* logs that step.  It is composed into the trace specification as a silent action (at most once: Cancel needs a live context).
+EnvUnlogged == "env_unlogged" \in DOMAIN Trace[1] /\ Trace[1].env_unlogged
+SilentCancel == EnvUnlogged /\ Cancel /\ UNCHANGED <<l, ahead>>
+
 TNext == IF OutcomeOnly THEN ConsumeOutcome ELSE IF ForcedSet # {}
          THEN Run(CHOOSE p \in ForcedSet : TRUE)      \* any fixed order: forced steps commute
          ELSE \/ Consume
+              \/ SilentCancel
               \/ \E p \in Procs : (Free(p) \/ Late(p)) /\ Run(p)
 TSpec == TInit /\ [][TNext]_tvars
 
